@@ -48,7 +48,24 @@ MixedCase(op, dta, dtb, a, b) ==
        allowed |-> IF op = "MultidirectionalBroadcast" THEN Multi(A, B) ELSE Uni(A, B),
        cmp |-> "bits", keep |-> TRUE, feat |-> Feat(a, b) \o <<"mixed_types">>, known |-> <<>>]
 MixedPairs == {<<"f32", "i64">>, <<"i64", "f32">>, <<"f64", "u8">>, <<"i32", "f64">>}
+\* broadcasting copies bit patterns: every special value survives being the single element that is stretched (sign of zero, NaN,
+\* infinities, extreme integers) and being an element of the operand it is stretched against
+SpecialVals(dt) == IF dt \in FloatTypes THEN <<NZ, Fin(0), NaN, PInf, NInf, FMax, NMax, Rat(-5, 2)>>
+                   ELSE IF dt \in SIntTypes THEN <<Fin(0), IMinS, IMaxS, Fin(-1)>> ELSE <<Fin(0), IMaxU, Sym(1, 0)>>
+ValueCases(op) ==
+   \A dt \in {"f32", "f64", "i32", "i64", "u8"} : \A k \in 1..Len(SpecialVals(dt)) : \A one \in {<<>>, <<1>>, <<1, 1>>} : \A big \in {<<3>>, <<2, 3>>, <<2, 1, 2>>} :
+      LET S == T(dt, one, <<SpecialVals(dt)[k]>>)
+          L == T(dt, big, [i \in 1..Size(big) |-> SpecialVals(dt)[((i + k) % Len(SpecialVals(dt))) + 1]])
+          mk(A, B) == [prop |-> "C14", fam |-> "bcast", kind |-> "helper", op |-> op, attrs |-> <<>>, inputs |-> <<A, B>>, nout |-> 2,
+                       allowed |-> IF op = "MultidirectionalBroadcast" THEN Multi(A, B) ELSE Uni(A, B),
+                       cmp |-> "bits", keep |-> TRUE, feat |-> Feat(A.shape, B.shape) \o <<"special_values">>, known |-> <<>>]
+      IN PrintT(<<"CASE", ToJson(mk(L, S))>>) /\ PrintT(<<"CASE", ToJson(mk(S, L))>>)
+\* long operands (an element count that is no multiple of a block size)
+LongCases(op) ==
+   \A p \in {<<<<40003>>, <<1>>>>, <<<<20001, 2>>, <<2>>>>, <<<<20001, 1>>, <<1, 2>>>>, <<<<2, 20001>>, <<>>>>, <<<<1>>, <<40003>>>>} :
+      PrintT(<<"CASE", ToJson([CaseOf(op, "f32", p[1], p[2]) EXCEPT !.feat = @ \o <<"long">>])>>)
 Emit == /\ ~st.done
+        /\ (st.dt = "f32" /\ st.a = <<>> /\ st.b = <<>> => ValueCases(st.op) /\ LongCases(st.op))
         /\ PrintT(<<"CASE", ToJson(CaseOf(st.op, st.dt, st.a, st.b))>>)
         /\ (st.dt = "f32" /\ Len(st.a) <= 2 /\ Len(st.b) <= 2 =>
               \A p \in MixedPairs : PrintT(<<"CASE", ToJson(MixedCase(st.op, p[1], p[2], st.a, st.b))>>))
